@@ -91,6 +91,17 @@ theorem anything_dedup_irrelevant_of_no_lookup_error (mt : Str → Str → Bool)
     verdictOf mt g (mkRule false false true dir true (dedupSubjects S) (dedupSubjects S)) :=
   Pta.anything_dedup_irrelevant_of_no_lookup_error mt g hc dir S hS hok
 
+/-- the ALIAS form, for ALL name batches `S` — the names need not exist: through `assert_applies` the rule
+    `S should not import / be imported by anything` (which de-duplicates `S`) has the verdict class of
+    `S should not import / be imported by modules except S` on the full batch. When all names exist this is
+    `anything_dedup_irrelevant`; an absent name makes BOTH sides raise a lookup error — since the repair of F-C13b also when
+    the de-duplication drops that name (`Rule._assert_modules_removed_by_alias_conversion_exist`). -/
+theorem anything_alias_dedup_irrelevant (mt : Str → Str → Bool) (g : PGraph Str) (hc : HierClosed g) (dir : Bool)
+    (S : List Filter) (hS : namesOnly S = true) :
+    verdictOf mt g { cfg := { subjects := some S, shouldNot := true, importDir := some dir, anything := true }, next := some false } =
+    verdictOf mt g (mkRule false false true dir true S S) :=
+  Pta.alias_anything_verdict_lemma mt g hc S dir hS
+
 /-- the `anything` aliases with a regex subject have the verdict class of the alias on the expansion — no
     de-duplication hypothesis -/
 theorem regex_expansion_anything_verdict (mt : Str → Str → Bool) (g : PGraph Str) (hnd : g.nodes.Nodup)
@@ -117,13 +128,28 @@ example : (exG.nodes.filter (exMt "p[.]a.*".toList)).map Filter.name = exS := by
 example : ∃ m ∈ exG.nodes, exMt "p[.]a.*".toList m = true := by decide
 example : verdictOf exMt exG (mkRule false false true true true exS exS) = .fail := by decide
 example : verdictOf exMt exG (mkRule false false true false true exS exS) = .fail := by decide
+/-! non-vacuity of `anything_alias_dedup_irrelevant` beyond `anything_dedup_irrelevant`: a batch with an absent name -/
+example : namesOnly [.name "p.a".toList, .name "p.a.y".toList] = true := by decide
+example : exG.hasNode "p.a.y".toList = false := by decide
 
-/-- why the names must exist (finding F-C13b): an absent name that is a dotted extension of another subject is dropped
-    by the de-duplication, so the rule on `S` raises a lookup error while the de-duplicated rule yields a verdict -/
+/-- why the names must exist in `anything_dedup_irrelevant` (finding F-C13b): an absent name that is a dotted extension
+    of another subject is dropped by the de-duplication, so the rule on `S` raises a lookup error while the rule on the
+    explicitly de-duplicated batch yields a verdict -/
 theorem anything_dedup_absent_name_witness :
     let S : List Filter := [.name "p.a".toList, .name "p.a.y".toList]
     verdictOf exMt exG (mkRule false false true true true S S) = .err .lookupError ∧
     verdictOf exMt exG (mkRule false false true true true (dedupSubjects S) (dedupSubjects S)) = .fail := by
+  decide
+
+/-- … but through the ALIAS form (what a user can write: `are_named([p.a, p.a.y]).should_not().import_anything()`) the
+    repaired library no longer returns that verdict: the alias and the reference rule on `S` both raise the lookup
+    error, in both directions (an instance of `anything_alias_dedup_irrelevant`) -/
+theorem anything_dedup_absent_name_alias_witness :
+    let S : List Filter := [.name "p.a".toList, .name "p.a.y".toList]
+    (∀ dir : Bool,
+      verdictOf exMt exG { cfg := { subjects := some S, shouldNot := true, importDir := some dir, anything := true },
+                           next := some false } = .err .lookupError ∧
+      verdictOf exMt exG (mkRule false false true dir true S S) = .err .lookupError) := by
   decide
 
 /-- why `HierClosed` is needed: on a hand-made graph with nodes `p`, `p.a` but no hierarchy edge between them the
